@@ -208,6 +208,7 @@ def run_config(cfg, e):
             e.prefer.append(q <= 9)
             m = object.__new__(mod.TemplateModel)
             m.spike_clusters, m.spike_templates, m.n_templates = sc, st, T
+            m.template_ids = snp.unique(st)
             e.case_builder = lambda ev: {'kind': kind, 'sc': ev(xs), 'st': ev(ts), 'dtype': dt, 'q': ev(q),
                                          'T': T}
             try:
@@ -310,6 +311,7 @@ def replay(case):
         m.spike_clusters = np.array(case['sc'], dtype=np.int32)
         m.spike_templates = np.array(case['st'], dtype=case['dtype'])
         m.n_templates = case['T']
+        m.template_ids, m.cluster_ids = np.unique(m.spike_templates), np.unique(m.spike_clusters)
         q = case['q']
         try:
             cs, tsp, cnt = m.get_cluster_spikes(q), m.get_template_spikes(q), m.get_template_counts(q)
